@@ -437,3 +437,6 @@ Proof.
   - apply clause_complete_stack_stride; assumption.
   - apply clause_complete_stack_base; [exact St|lia].
 Qed.
+
+Lemma coverage_ok_complete names : names = seven -> coverage_ok names = true.
+Proof. intros ->. vm_compute. reflexivity. Qed.
